@@ -351,3 +351,19 @@ Theorem C17_custom_smooth_system : forall (hp : bool) (bs : Z) (N : nat) (lam : 
             PB.C06.Proofs.sys_ok N (fun i j => (if i =? j then 1 else 0) + lam * PB.C11.DtD.DtD d N i j) base k.
 Proof. exact custom_smooth_system. Qed.
 Print Assumptions C17_custom_smooth_system.
+
+(* ---------------------------------------------------------------- the method name is case-insensitive *)
+(* collab_pls lower-cases the name before every comparison, so any spelling gets the protocol of the
+   lower-case name: in particular the forced settings of C17_collab_forced_win hold for every spelling *)
+Theorem C17_collab_name_case : forall (two_d : bool) (name : string) (user : dict val) (k : string) (avg : bool) (M : nat),
+  collab_calls_named two_d name avg M user = collab_calls two_d (lower name) avg M user /\
+  dget k (collab_step2 two_d (lower name) user) =
+  match forced two_d (lower name) k with Some v => Some v | None => dget k user end.
+Proof. intros. split; [reflexivity|apply collab_step2_get]. Qed.
+Print Assumptions C17_collab_name_case.
+
+Example C17_collab_name_case_nonvacuous :
+  lower "asPLS" = "aspls"%string /\ lower "PSPLINE_BRPLS" = "pspline_brpls"%string /\ lower "fabc" = "fabc"%string /\
+  collab_param_keys_named "ASPLS" = ["average_weights"; "method_params"; "average_alpha"]%string /\
+  dget "alpha" (collab_step2 true (lower "PSpline_AsPLS") [("alpha", VUser 0)]%string) = Some VAvgA.
+Proof. vm_compute. repeat split. Qed.
